@@ -942,3 +942,19 @@ mod tests {
         }
     }
 }
+
+// ========================================================================
+// Verification hooks (only with `--cfg crrl_verif`).
+
+#[cfg(crrl_verif)]
+impl Point {
+    /// Internal edwards25519 point representing this element.
+    pub fn verif_inner(&self) -> Ed25519Point {
+        self.0
+    }
+
+    /// Wrap an edwards25519 point (not validated).
+    pub fn verif_from_inner(P: &Ed25519Point) -> Self {
+        Self(*P)
+    }
+}
